@@ -104,6 +104,9 @@ type Check struct {
 	WorkerEnv   []string
 	// MaxSamples literal samples kept in evidence.
 	MaxSamples int
+	// JournalEvery > 1 journals only every k-th case start (for very cheap
+	// cases); a crash is then attributed by re-running the group case by case.
+	JournalEvery int
 }
 
 type agg struct {
@@ -334,6 +337,13 @@ func chunkSize(c *Check, n int64, workers int) int64 {
 	return ch
 }
 
+func journalEvery(c *Check) int64 {
+	if c.JournalEvery > 1 {
+		return int64(c.JournalEvery)
+	}
+	return 1
+}
+
 func workers(c *Check) int {
 	w := c.Workers
 	if w <= 0 {
@@ -390,8 +400,10 @@ func runWorker(c *Check, tier, spec string, from, to int64, skipList string) {
 			if skip[i] {
 				continue
 			}
-			fmt.Fprintf(w, "S %d\n", i)
-			w.Flush()
+			if je := journalEvery(c); (i-lo)%je == 0 {
+				fmt.Fprintf(w, "S %d\n", i)
+				w.Flush()
+			}
 			r := RunCase(sp, i)
 			co.add(&r, keys, lo < 4*ch*int64(n))
 		}
@@ -689,7 +701,38 @@ func parent(c *Check, tier string) int {
 					mu.Unlock()
 					return
 				}
-				// crashed or hung inside case curCase
+				// crashed or hung inside case curCase (or, with coarse journalling,
+				// inside the group of cases starting there): find the culprit
+				if je := journalEvery(c); je > 1 {
+					culprit := int64(-1)
+					hi := curCase + je
+					if hi > total {
+						hi = total
+					}
+					for i := curCase; i < hi && culprit < 0; i++ {
+						already := false
+						for _, sk := range skip {
+							if sk == strconv.FormatInt(i, 10) {
+								already = true
+							}
+						}
+						if already {
+							continue
+						}
+						r1, _, to1 := runSingle(c, tier, i, caseTimeout)
+						if r1 == nil || to1 {
+							culprit = i
+						}
+					}
+					if culprit < 0 {
+						mu.Lock()
+						a.Violations = append(a.Violations, Violation{Class: "harness:worker-died", Msg: "worker died in a case group but no single case reproduces it: " + tail(errb.String(), 2000), Idx: curCase})
+						noteIncomplete(curCase)
+						mu.Unlock()
+						return
+					}
+					curCase = culprit
+				}
 				co := chunkOut{Start: curCase, Cases: 1, Evals: 1, Outcomes: map[string]int64{}, Counters: map[string]int64{}}
 				if hung {
 					// confirm alone with 3x the timeout before believing it
